@@ -209,10 +209,12 @@ impl TransformerContext {
         // TODO: this logic is duplicated in `impl EventGen for SvgElement` so
         // it works in both '^' contexts and root SVG bbox generation context.
         // Can't just move this to SvgElement::bbox() as it needs ElementMap.
-        if let (Some(clip_path), Some(ref mut bbox)) = (el.get_attr("clip-path"), &mut el_bbox) {
-            let clip_id = extract_urlref(&clip_path).ok_or(SvgdxError::InvalidData(format!(
-                "Invalid clip-path attribute: {clip_path}"
-            )))?;
+        // (values other than a reference - `none`, `inherit` - don't clip anything)
+        if let (Some(clip_id), Some(ref mut bbox)) = (
+            el.get_attr("clip-path")
+                .and_then(|url| extract_urlref(&url)),
+            &mut el_bbox,
+        ) {
             if seen_clips.contains(&clip_id) {
                 return Err(SvgdxError::CircularRefError(format!(
                     "clip-path {clip_id} already seen"
